@@ -19,12 +19,12 @@ type box struct {
 	key bool
 }
 
-func (b box) Type() proto.ColumnType               { return b.in.Col().Type() }
-func (b box) Rows() int                            { return b.in.Col().Rows() }
+func (b box) Type() proto.ColumnType                    { return b.in.Col().Type() }
+func (b box) Rows() int                                 { return b.in.Col().Rows() }
 func (b box) DecodeColumn(r *proto.Reader, n int) error { return b.in.Col().DecodeColumn(r, n) }
-func (b box) Reset()                               { b.in.Col().Reset() }
-func (b box) EncodeColumn(buf *proto.Buffer)       { b.in.Col().EncodeColumn(buf) }
-func (b box) WriteColumn(w *proto.Writer)          { b.in.Col().WriteColumn(w) }
+func (b box) Reset()                                    { b.in.Col().Reset() }
+func (b box) EncodeColumn(buf *proto.Buffer)            { b.in.Col().EncodeColumn(buf) }
+func (b box) WriteColumn(w *proto.Writer)               { b.in.Col().WriteColumn(w) }
 func (b box) conv(v any) ref.Val {
 	if b.key {
 		return ref.Leaf([]byte(v.(string)))
